@@ -140,6 +140,7 @@ class Repo:
     def resolve(self, target: str):
         """'liquid2.output:LimitedStringIO.write' -> (ModuleInfo, node)."""
         modname, _, qual = target.partition(":")
+        qual = qual.split("#")[0]          # "mod:func#label" is a second (bounded) contract on the same function
         mod = self.module(modname)
         if mod is None:
             return None, None
